@@ -111,6 +111,13 @@ where
     }))
 }
 
+/// Between broker and coordinator every value travels as JSON over HTTP in production; a value that
+/// does not survive its own serde round trip must not look fine here.
+fn via_json<T: serde::Serialize + serde::de::DeserializeOwned>(v: T) -> Result<T, MetaDataBrokerError> {
+    let s = serde_json::to_string(&v).map_err(|_| MetaDataBrokerError::InvalidReply)?;
+    serde_json::from_str(&s).map_err(|_| MetaDataBrokerError::InvalidReply)
+}
+
 impl MetaDataBroker for SimBroker {
     fn get_cluster_names<'s>(&'s self) -> Pin<Box<dyn Stream<Item = Result<ClusterName, MetaDataBrokerError>> + Send + 's>> {
         once_list(async move {
@@ -125,7 +132,7 @@ impl MetaDataBroker for SimBroker {
             if self.gate(format!("get_cluster {}", name)).await != BrokerVerdict::Exec {
                 return Err(MetaDataBrokerError::RequestFailed);
             }
-            self.broker.svc.get_cluster_by_name(name.as_str()).await.map_err(|_| MetaDataBrokerError::RequestFailed)
+            via_json(self.broker.svc.get_cluster_by_name(name.as_str()).await.map_err(|_| MetaDataBrokerError::RequestFailed)?)
         })
     }
     fn get_proxy_addresses<'s>(&'s self) -> Pin<Box<dyn Stream<Item = Result<String, MetaDataBrokerError>> + Send + 's>> {
@@ -143,7 +150,7 @@ impl MetaDataBroker for SimBroker {
             if self.gate(format!("get_proxy {}", address)).await != BrokerVerdict::Exec {
                 return Err(MetaDataBrokerError::RequestFailed);
             }
-            self.broker.svc.get_proxy_by_address(&address).await.map_err(|_| MetaDataBrokerError::RequestFailed)
+            via_json(self.broker.svc.get_proxy_by_address(&address).await.map_err(|_| MetaDataBrokerError::RequestFailed)?)
         })
     }
     fn add_failure<'s>(&'s self, address: String, reporter_id: String) -> Pin<Box<dyn Future<Output = Result<(), MetaDataBrokerError>> + Send + 's>> {
@@ -202,6 +209,11 @@ impl MetaManipulationBroker for SimBroker {
                 return Err(MetaManipulationBrokerError::RequestFailed);
             }
             let before = self.broker.snapshot();
+            // the task descriptor is the JSON body of PUT /clusters/migrations in production
+            let meta: MigrationTaskMeta = match serde_json::to_string(&meta).ok().and_then(|s| serde_json::from_str(&s).ok()) {
+                Some(m) => m,
+                None => return Err(MetaManipulationBrokerError::InvalidReply),
+            };
             let r = self.broker.svc.commit_migration(meta).await;
             let after = self.broker.snapshot();
             self.commits.lock().unwrap().push(CommitRec {
